@@ -187,6 +187,26 @@ fn c04_variant<V: Variant>(ctx: &Ctx, rep: &mut Report) {
         c04_value::<V>(&b, rep);
         let s = random_case_text::<V>(&mut rng, &b);
         c04_accepted::<V>(&s, rep);
+        // whatever else the parser accepts must be a spelling of the canonical form too:
+        // near misses of an accepted string (one or two bytes replaced)
+        for _ in 0..3 {
+            let mut m = s.clone();
+            for _ in 0..rng.range(1, 2) {
+                let p = rng.below(m.len() as u64) as usize;
+                m[p] = match rng.below(4) {
+                    0 => rng.next_u8(),
+                    1 => *rng.pick(&[b'G', b'g', b'@', b'`', b'/', b':', b'O', b'o', b'l', b' ', 0u8]),
+                    2 => m[p] ^ 0x20,
+                    _ => m[p].wrapping_add(*rng.pick(&[1u8, 255, 7, 16, 48])),
+                };
+            }
+            rep.count("near_misses_tried", 1);
+            let before = rep.counters.get("accepted_string_rejected").copied().unwrap_or(0);
+            c04_accepted::<V>(&m, rep);
+            if rep.counters.get("accepted_string_rejected").copied().unwrap_or(0) == before {
+                rep.count("near_misses_accepted", 1);
+            }
+        }
         let mut fp = b.clone();
         fp.push(V::INDEX as u8);
         rep.distinct(fingerprint(&fp));
@@ -204,8 +224,12 @@ fn c04_variant<V: Variant>(ctx: &Ctx, rep: &mut Report) {
     let mut rng = ctx.rng("c04-pos", V::INDEX as u64);
     let base = gen::hash_bytes(&mut rng, V::SIZE, V::CK, V::NB, true);
     let (lo, hi) = ctx.slice(V::SIZE as u64);
+    let xstep = if ctx.scale < 1.0 { 51 } else { 1 };
     for p in lo..hi {
-        for x in 0..=255u8 {
+        if ctx.scale < 1.0 && p % 5 != ctx.seed % 5 && p as usize != V::CK && p as usize != V::CK + 1 {
+            continue;
+        }
+        for x in (0..=255u8).step_by(xstep) {
             let mut b = base.clone();
             b[p as usize] = x;
             c04_value::<V>(&b, rep);
@@ -322,7 +346,7 @@ fn c05_variant<V: Variant>(ctx: &Ctx, rep: &mut Report) {
                 if (p as u64 + r) % ctx.nshards != ctx.shard {
                     continue;
                 }
-                if ctx.scale < 1.0 && p % 7 != 0 {
+                if ctx.scale < 1.0 && p % 13 != (ctx.seed % 13) as usize {
                     continue;
                 }
                 let step = if ctx.scale < 1.0 { 17 } else { 1 };
@@ -343,7 +367,7 @@ fn c05_variant<V: Variant>(ctx: &Ctx, rep: &mut Report) {
     // (b) every length 0..=2*LEN+2, random and all-hex content; prefix look-alikes
     if ctx.shard == (V::INDEX as u64) % ctx.nshards {
         let mut rng = ctx.rng("c05-len", V::INDEX as u64);
-        for len in 0..=(2 * V::LEN_STR + 2) {
+        for len in (0..=(2 * V::LEN_STR + 2)).step_by(if ctx.scale < 1.0 { 9 } else { 1 }) {
             for kind in 0..4 {
                 let mut s: Vec<u8> = match kind {
                     0 => rng.bytes(len),
@@ -590,8 +614,9 @@ fn c06_variant<V: Variant>(ctx: &Ctx, rep: &mut Report) {
     let mut rng = ctx.rng("c06-pos", V::INDEX as u64);
     let base = gen::hash_bytes(&mut rng, V::SIZE, V::CK, V::NB, true);
     let (lo, hi) = ctx.slice(V::SIZE as u64);
+    let xstep = if ctx.scale < 1.0 { 51 } else { 1 };
     for p in lo..hi {
-        for x in 0..=255u8 {
+        for x in (0..=255u8).step_by(xstep) {
             let mut b = base.clone();
             b[p as usize] = x;
             bytes_check::<V>(&b, rep);
@@ -600,7 +625,7 @@ fn c06_variant<V: Variant>(ctx: &Ctx, rep: &mut Report) {
     }
     // slices of every length 0..=2N
     if ctx.shard == (V::INDEX as u64) % ctx.nshards {
-        for len in 0..=2 * V::SIZE {
+        for len in (0..=2 * V::SIZE).step_by(if ctx.scale < 1.0 { 7 } else { 1 }) {
             let b = rng.bytes(len);
             bytes_check::<V>(&b, rep);
             rep.count("c06:lengths_enumerated", 1);
@@ -720,12 +745,13 @@ fn c14_variant<V: Variant>(ctx: &Ctx, rep: &mut Report) {
         for form in 0..3u8 {
             let need = [V::SIZE, V::LEN_STR - 2, V::LEN_STR][form as usize];
             // all L in 0..=need+64 for the first values of a shard, a seeded subset afterwards
-            let dense = i < 4;
+            let dense = i < 4 && ctx.scale >= 1.0;
             let max_len = need + if dense { extra.min(256) } else { extra };
             let mut len = 0usize;
             while len <= max_len {
                 c14_check::<V>(&b, form, len, (rng.below(3)) as u8, rep);
-                len += if dense || len + 70 >= need && len <= need + 70 { 1 } else { 1 + rng.below(97) as usize };
+                let window = if ctx.scale < 1.0 { 5 } else { 70 };
+                len += if dense || len + window >= need && len <= need + window { 1 } else { 1 + rng.below(97) as usize };
             }
         }
         let mut fp = b.clone();
